@@ -597,13 +597,20 @@ SHAPE_IRV = {
     "pull_inst": ("VALUE.INSTANCEWITHPATH", False),
     "pull_path": ("INSTANCEPATH", False),
     "pull_query": ("INSTANCE", False),
+    # OpenQueryInstances / IterQueryInstances with ReturnQueryResultClass=True
+    "pull_queryc": ("INSTANCE", False),
     "classes": ("CLASS", False), "classnames": ("CLASSNAME", False),
     "class": ("CLASS", True),
     "qualdecls": ("QUALIFIER.DECLARATION", False),
     "qualdecl": ("QUALIFIER.DECLARATION", True),
 }
 SHAPES = sorted(SHAPE_IRV)
-PULL_SHAPES = ("pull_inst", "pull_path", "pull_query")
+PULL_SHAPES = ("pull_inst", "pull_path", "pull_query", "pull_queryc")
+QRC_SHAPES = ("pull_query", "pull_queryc")
+# shapes whose result is a list of any number of objects
+LIST_SHAPES = ("namedinsts", "instnames", "objs_i", "objs_c", "paths_i",
+               "paths_c", "queryobjs", "classes", "classnames",
+               "qualdecls") + PULL_SHAPES
 
 
 def pull_params(gen, eos=None, ctx=True):
@@ -746,7 +753,7 @@ SHAPE_SITES = {
     "inst": INST_SITES, "namedinsts": INST_SITES,
     "objs_i": INST_SITES + ["path"],
     "queryobjs": INST_SITES, "pull_inst": INST_SITES + ["path"],
-    "pull_query": INST_SITES,
+    "pull_query": INST_SITES, "pull_queryc": INST_SITES,
     "instname": PATH_SITES, "instnames": PATH_SITES,
     "paths_i": PATH_SITES + ["path"], "pull_path": PATH_SITES + ["path"],
     "class": CLASS_SITES, "classes": CLASS_SITES,
@@ -1646,13 +1653,25 @@ def v_c16(ctx, d):
 
 
 @kind("v_type", "value", sites=TYPED_SITES + ["param"],
-      clss=["unknown", "empty", "upper", "reference", "missing", "ws"])
+      clss=["unknown", "empty", "upper", "reference", "missing", "ws",
+            "trail"])
 def v_type(ctx, d):
     c = d["cls"]
     ty = {"unknown": ctx.rng.choice(["uint128", "int", "String[]", "real16"]),
           "empty": "", "upper": ctx.rng.choice(["UINT8", "String", "Boolean"]),
           "reference": "reference", "missing": None,
-          "ws": " uint8 "}[c]
+          "ws": " uint8 ",
+          "trail": None}[c]
+    if c == "trail":
+        # a valid type name with one leading / trailing control character
+        # (written as a character reference, so that attribute value
+        # normalisation keeps it) and a value that is valid for the type
+        base = ctx.rng.choice(NUM_TYPES + ["boolean", "string", "datetime",
+                                           "char16"])
+        ch = ctx.rng.choice(["\n", "\n", "\r", "\t", "\n\n"])
+        ty = base + ch if ctx.rng.random() < 0.75 else ch + base
+        ctx.place(d["site"], ty, ctx.gen.good_text(base))
+        return
     ctx.place(d["site"], ty, ctx.rng.choice(["1", "true", "x", ""]))
 
 
@@ -2031,7 +2050,8 @@ def v_nspath(ctx, d):
         q.kids = q.kids[:1]
 
 
-@kind("v_deep", "value", sites=["ref", "emb"], clss=["d50", "d200", "d2000"])
+@kind("v_deep", "value", sites=["ref", "emb"], clss=["d50", "d200", "d2000"],
+      ok=lambda d: not (d["site"] == "emb" and d["cls"] == "d2000"))
 def v_deep(ctx, d):
     n = int(d["cls"][1:])
     if d["site"] == "ref":
@@ -2045,13 +2065,16 @@ def v_deep(ctx, d):
         h.kids.append(E("KEYBINDING", {"NAME": "kdeep"},
                         [E("VALUE.REFERENCE", None, [inner])]))
     else:
-        n = min(n, 12)     # every level doubles the escaping
+        # every level escapes the levels inside it once more (size grows
+        # with the square of the depth: 210 levels = 0.5 MB when only & and
+        # < are escaped); the recursive parser gives up at about 195 levels
+        n = 210 if n >= 200 else n
         inner = '<INSTANCE CLASSNAME="C"/>'
         for _ in range(n):
-            inner = E("INSTANCE", {"CLASSNAME": "C"},
-                      [E("PROPERTY", {"NAME": "e", "TYPE": "string",
-                                      "EmbeddedObject": "instance"},
-                         [V(inner)])]).ser()
+            inner = ('<INSTANCE CLASSNAME="C"><PROPERTY NAME="e" TYPE="string"'
+                     ' EmbeddedObject="instance"><VALUE>%s</VALUE></PROPERTY>'
+                     '</INSTANCE>' % inner.replace("&", "&amp;")
+                     .replace("<", "&lt;"))
         ctx.add_prop(ctx.host_obj(), ctx.gen.embedded_property(
             inner=inner, kind="instance"))
 
@@ -2065,6 +2088,26 @@ def o_irv(ctx, d):
     objs = [ctx.gen.irv_elem(d["cls"]) for _ in range(ctx.rng.choice([1, 1, 2]))]
     if d["cls"] in ("VALUE.ARRAY", "VALUE.REFERENCE"):
         objs = objs[:1]
+    irv = ctx.irv()
+    if irv is None:
+        irv = E("IRETURNVALUE")
+        r.kids.insert(0, irv)
+    irv.kids = objs
+
+
+# heterogeneous result list: the first object is of kind ty, at least one
+# later object of kind cls (# ty); further objects of either kind in any order
+@kind("o_het", "optype", tys=IRV_KINDS, clss=IRV_KINDS, shapes=LIST_SHAPES,
+      ok=lambda d: d["ty"] != d["cls"])
+def o_het(ctx, d):
+    r = ctx.resp()
+    rng = ctx.rng
+    if r.name != "IMETHODRESPONSE":
+        raise NotRenderable("no IRETURNVALUE in this response kind")
+    rest = [d["cls"]] + [rng.choice([d["ty"], d["cls"]])
+                         for _ in range(rng.choice([0, 0, 1, 2]))]
+    rng.shuffle(rest)
+    objs = [ctx.gen.irv_elem(k) for k in [d["ty"]] + rest]
     irv = ctx.irv()
     if irv is None:
         irv = E("IRETURNVALUE")
@@ -2156,7 +2199,7 @@ def pv_applicable(shape, d):
         names = ["IRETURNVALUE", "ERROR", "other"]
         if shape in PULL_SHAPES:
             names += ["EndOfSequence", "EnumerationContext"]
-        if shape == "pull_query":
+        if shape in QRC_SHAPES:
             names += ["QueryResultClass"]
     return d["site"] in okpos and d["ty"] in names
 
@@ -2313,12 +2356,18 @@ def p_ctx(ctx, d):
 
 @kind("p_misc", "optype", shapes=PULL_SHAPES,
       clss=["unknownparam", "empty", "noname", "emptyname", "twokids",
-            "qrc_class", "qrc_notclass", "qrc_novalue", "embattr",
-            "badchild", "onlyirv"])
+            "qrc_class", "qrc_notclass", "qrc_novalue", "qrc_missing",
+            "embattr", "badchild", "onlyirv"])
 def p_misc(ctx, d):
     c = d["cls"]
     r = ctx.resp()
     rng = ctx.rng
+    if c.startswith("qrc_"):
+        # the QueryResultClass output parameter in all its forms (replaces
+        # the one a valid OpenQueryInstances answer has)
+        r.kids = [k for k in r.kids if not (
+            isinstance(k, E) and k.name == "PARAMVALUE" and
+            k.attrs.get("NAME") == "QueryResultClass")]
     if c == "unknownparam":
         r.kids.append(E("PARAMVALUE", {"NAME": "Foo", "PARAMTYPE": "uint8"},
                         [V(rng.choice(["1", "x"]))]))
@@ -2759,7 +2808,7 @@ def build_ops():
         return (isinstance(c, tuple) and len(c) == 2 and
                 isinstance(c[0], str) and isinstance(c[1], str))
 
-    def pull_result(elem, field, query=False):
+    def pull_result(elem, field, query=False, qrc=False):
         def chk(r):
             if not isinstance(r, tuple) or not hasattr(r, "eos"):
                 return False
@@ -2772,6 +2821,8 @@ def build_ops():
             if query and not (r.query_result_class is None or
                               isinstance(r.query_result_class, CIMClass)):
                 return False
+            if qrc and not isinstance(r.query_result_class, CIMClass):
+                return False      # documented for ReturnQueryResultClass=True
             return True
         return chk
 
@@ -2790,8 +2841,19 @@ def build_ops():
     def iterq(c, rng):
         r = c.IterQueryInstances("WQL", "select * from CIM_Foo",
                                  ReturnQueryResultClass=rng.choice(
-                                     [None, None, True]))
+                                     [None, False]))
         return (consume(r.generator), r.query_result_class)
+
+    def iterq_c(c, rng):
+        r = c.IterQueryInstances("WQL", "select * from CIM_Foo",
+                                 ReturnQueryResultClass=True)
+        return (consume(r.generator), r.query_result_class)
+
+    def iterq_c_ok(r):
+        return iterq_ok(r) and isinstance(r[1], CIMClass)
+
+    def rng_iterq(c, rng):
+        return (iterq_c if rng.random() < 0.5 else iterq)(c, rng)
 
     def iterq_fb(c, rng):
         r = c.IterQueryInstances("WQL", "select * from CIM_Foo")
@@ -2873,8 +2935,13 @@ def build_ops():
         Op("OpenQueryInstances", "pull_query", "OpenQueryInstances",
            lambda c, g: c.OpenQueryInstances(
                "WQL", "select * from CIM_Foo",
-               ReturnQueryResultClass=g.choice([None, False, True])),
+               ReturnQueryResultClass=g.choice([None, False])),
            pull_result(CIMInstance, "instances", query=True)),
+        Op("OpenQueryInstances", "pull_queryc", "OpenQueryInstances",
+           lambda c, g: c.OpenQueryInstances(
+               "WQL", "select * from CIM_Foo", ReturnQueryResultClass=True),
+           pull_result(CIMInstance, "instances", query=True, qrc=True),
+           label="OpenQueryInstances/qrc"),
         Op("PullInstancesWithPath", "pull_inst", "PullInstancesWithPath",
            lambda c, g: c.PullInstancesWithPath(pctx, 10),
            pull_result(CIMInstance, "instances")),
@@ -2940,8 +3007,11 @@ def build_ops():
                       label=meth + "/trad", pull=False))
     ops.append(Op("IterQueryInstances", "pull_query", "OpenQueryInstances",
                   iterq, iterq_ok, label="IterQueryInstances/open", pull=True))
+    ops.append(Op("IterQueryInstances", "pull_queryc", "OpenQueryInstances",
+                  iterq_c, iterq_c_ok, label="IterQueryInstances/open/qrc",
+                  pull=True))
     ops.append(Op("IterQueryInstances", "pull_query", "PullInstances",
-                  iterq, iterq_ok, label="IterQueryInstances/pull", pull=True,
+                  rng_iterq, iterq_ok, label="IterQueryInstances/pull", pull=True,
                   target_idx=2, first_eos=False))
     ops.append(Op("IterQueryInstances", "queryobjs", "ExecQuery",
                   iterq_fb, iterq_ok, label="IterQueryInstances/trad",
